@@ -365,6 +365,12 @@ def bytes_method(ex, b, name, args, kwargs):
         except ValueError as e:
             ex.throw('ValueError', str(e))
         return from_native(r, b.mutable)
+    if name in ('strip', 'lstrip', 'rstrip'):
+        # over-approximation: some byte string that is not longer than the original (content not related)
+        r = ex.fresh_bytes('stripped', mutable=b.mutable)
+        ex.assume(mk_bool(N.zlen(r) <= N.zlen(b)))
+        ex.ghost['havocked'] = True
+        return r
     raise Unsupported('bytes.%s on symbolic bytes' % name)
 
 
@@ -675,8 +681,25 @@ def set_method(ex, s, name, args, kwargs):
 # -------------------------------------------------------------------- str
 def str_method(ex, s, name, args, kwargs):
     if name == 'format':
+        if isinstance(s, SStr) and getattr(s, 'braces', False):
+            # the format string itself was built from data that may contain '{' or '}' (repr of symbolic octets,
+            # text taken from them): str.format may find a malformed or unexpected replacement field in it
+            k = ex.choose(4)
+            ex.ghost['havocked'] = True      # over-approximating fork: not a path for the CPython cross-check
+            if k:
+                N.assume_some_brace(ex, getattr(s, 'sources', []))
+            if k == 1:
+                ex.throw('ValueError', "Single '}' encountered in format string")
+            if k == 2:
+                ex.throw('KeyError', 'replacement field name taken from data')
+            if k == 3:
+                ex.throw('IndexError', 'Replacement index out of range for positional args tuple')
         N.format_check(ex, s, args, kwargs)
-        return OPAQUE if not _all_conc([s] + args + list(kwargs.values())) else _try_format(s, args, kwargs)
+        if _all_conc([s] + args + list(kwargs.values())):
+            return _try_format(s, args, kwargs)
+        vals = args + list(kwargs.values())
+        return N.opaque_str(braces=getattr(s, 'braces', False) or any(N.may_carry_braces(v) for v in vals),
+                            sources=N.brace_sources([s] + vals))
     if isinstance(s, SStr):
         if name == 'encode':
             raise Unsupported('encode of symbolic string')
